@@ -293,7 +293,9 @@ def build_gt_frames(d, frame=None):
     frame = frame or d["frame"]
     out = []
     for i, f in enumerate(d["frames"]):
-        out.append(D.frame_gt(f["gt"], frame, f["ego"], t=D.T0 + i * 100_000, name=str(i)))
+        # (d["bl_no_tf"]: ego-frame ground truths handed over without an ego pose — base_link objects need none)
+        # (d["names_restart"]: frame names are not unique — several dataset paths each restart at "0", hand-built frames)
+        out.append(D.frame_gt(f["gt"], frame, f["ego"], t=D.T0 + i * 100_000, name=str(i % 2) if d.get("names_restart") else str(i), with_tf=not (d.get("bl_no_tf") and frame == "base_link")))
     return out
 
 
@@ -399,6 +401,12 @@ def _f(x):
     return x
 
 
+def _sorted(it):
+    """Sorted indices; an object that is not one of the inputs (index None) sorts last instead of breaking the summary — the
+    comparison with the expectation then reports it."""
+    return sorted(it, key=lambda x: (x is None, x if x is not None else 0))
+
+
 def summarize_frame(res, ests_in, gts_in):
     """Index-based, order-insensitive summary of one PerceptionFrameResult."""
     pf = res.pass_fail_result
@@ -420,11 +428,11 @@ def summarize_frame(res, ests_in, gts_in):
         }
     s = {
         "pairs": pairs,
-        "crit_gt": sorted(gi(g) for g in res.frame_ground_truth.objects),
-        "tp": sorted(ei(r.estimated_object) for r in pf.tp_object_results),
-        "fp": sorted(ei(r.estimated_object) for r in pf.fp_object_results),
-        "fn": sorted(gi(g) for g in pf.fn_objects),
-        "tn": sorted(gi(g) for g in pf.tn_objects),
+        "crit_gt": _sorted(gi(g) for g in res.frame_ground_truth.objects),
+        "tp": _sorted(ei(r.estimated_object) for r in pf.tp_object_results),
+        "fp": _sorted(ei(r.estimated_object) for r in pf.fp_object_results),
+        "fn": _sorted(gi(g) for g in pf.fn_objects),
+        "tn": _sorted(gi(g) for g in pf.tn_objects),
         "maps": summarize_score(res.metrics_score)["maps"],
         "tracking": summarize_score(res.metrics_score)["tracking"],
         "num_gt": res.metrics_score.num_ground_truth,
